@@ -152,7 +152,14 @@ def check_c02(tier):
     recs = flatten(run, lambda r: r["kind"] in ("C02", "C01", "range") and r["case"]["op"] not in PRED_OPS)
     trecs, tsum = trace_records(run, lambda c: c["op"] not in PRED_OPS, 2 if tier == "quick" else 3)
     recs += trecs
-    return _finish("C02", tier, run, recs, lambda c: c["op"] not in PRED_OPS, trace=tsum)
+    from . import numbax
+
+    nres = numbax.replay([c for c in run["cases"] if c["op"] not in PRED_OPS and not c["op"].startswith("rawtau_")], [],
+                         tier="quick" if tier == "quick" else "full", seed=common.seed() + 4, only_jobs=True)
+    recs += nres["records"]
+    out = _finish("C02", tier, run, recs, lambda c: c["op"] not in PRED_OPS, trace=tsum)
+    out["coverage"]["numba_compiled_signature_jobs"] = nres["jobs"]
+    return out
 
 
 RANGE_OPS = {"phi", "deltaphi", "theta", "deltaangle", "rho", "mag", "rho2", "mag2", "t2", "costheta", "cottheta",
@@ -165,7 +172,15 @@ def check_c13(tier):
     recs = flatten(run, lambda r: r["kind"] == "range" or (r["case"]["op"] in PRED_OPS and r["kind"] in ("C01", "C02", "error"))
                    or (r["case"]["op"] in RANGE_OPS and r["kind"] == "C02")
                    or (r["case"]["op"].startswith("rawtau_") and r["kind"] in ("C01", "C02", "error")))
-    return _finish("C13", tier, run, recs, lambda c: True)
+    # the predicates compiled with numba (its overload builds the kernel signature itself), in sampled signature pairings
+    from . import numbax
+
+    nres = numbax.replay([c for c in run["cases"] if c["op"] in PRED_OPS], [], tier="quick" if tier == "quick" else "full",
+                         seed=common.seed() + 3, only_jobs=True)
+    recs += nres["records"]
+    out = _finish("C13", tier, run, recs, lambda c: True)
+    out["coverage"]["numba_compiled_predicate_jobs"] = nres["jobs"]
+    return out
 
 
 def replay_file(prop, path):
